@@ -1,5 +1,6 @@
 import Props.C19
 import Lemmas.Lookup
+import Props.C10
 /-!
 # C17 — completion offers exactly the applicable commands, options and values
 -/
@@ -153,5 +154,41 @@ example : completeUser Demo.ext Demo.prog true (b "./prog --ver") [] =
 example : completeUser Demo.ext Demo.prog true (b "./prog c") [] = .candidates [b "cmd"] := by decide
 example : completeUser Demo.ext Demo.prog false (b "./prog cmd --fo") [] =
     .candidates [b "--force"] := by decide
+
+variable (mode : Mode)
+
+/-! ## whole line: the level reached by the earlier words -/
+
+/-- **What is offered is computed at the level the earlier words lead to, with the parser's own walk.**  The
+earlier words are processed by the same `run` as `Parse`; when they leave the parser at a head position (no error,
+no option waiting for a value), the candidates for the last word `w` are exactly `completionsAt` of the command
+selected by those words — its option table (own and inherited keys) when `w` starts with `-`, its sub-commands,
+static suggestions and dynamic functions otherwise, the latter called with the text that belongs to that command. -/
+theorem completion_at_reached_level (target : Str) (P : Prog) (earlier : List Str) (w : Str)
+    (he : (run ext mode P earlier).err = none) (hc : (run ext mode P earlier).ctx = .idle) :
+    let s := run ext mode P earlier
+    (completeArgs ext mode target P (earlier ++ [w])).comps =
+      some (completionsAt ext target s.P (s.P.node s.cur) (s.rem.drop s.textStart) w) ∧
+    (completeArgs ext mode target P (earlier ++ [w])).err = none := by
+  simp only
+  unfold completeArgs
+  simp only [List.getLast?_append, List.getLast?_singleton, Option.some_or, List.dropLast_concat]
+  generalize run ext mode P earlier = s at he hc
+  simp only [stepG, he, hc, head, finish, Option.isSome_none, Bool.false_eq_true, ↓reduceIte]
+  trivial
+
+/-- after the command words `c₁ … cₖ` the candidates are those of the command the chain leads to -/
+theorem completion_after_command_words (target : Str) (P : Prog) (words : List Str) (node : Nat) (w : Str)
+    (hw : ∀ x ∈ words, x ≠ dashdash ∧ (isOption x mode).2 = false)
+    (hf : follows P 0 words = some node) :
+    (completeArgs ext mode target P (words ++ [w])).comps =
+      some (completionsAt ext target P (P.node node) [] w) := by
+  have h := command_words_select ext mode words (initState P) node rfl rfl hw hf
+  obtain ⟨h1, h2, h3, h4, h5, h6⟩ := h
+  have := (completion_at_reached_level ext mode target P words w h5 h6).1
+  rw [this]
+  unfold run
+  rw [h1, h2, h3]
+  simp [initState]
 
 end GoModel
